@@ -4,6 +4,6 @@ set -u
 NAME=$1; CHK=$2; TIER=${3:-quick}
 cd /repo && git diff --quiet || { echo "/repo has local changes"; exit 1; }
 git -C /repo apply /verif/seeded/$NAME/patch.diff || exit 1
-cd /verif && timeout 3000 ./run.sh $CHK $TIER 2>&1 | grep -v 'replay=' | tail -${LINES_OUT:-6} | cut -c1-400
+cd /verif && timeout 3000 ./run.sh $CHK $TIER 2>&1 | grep -av "replay=" | tail -${LINES_OUT:-6} | cut -c1-400
 git -C /repo checkout -- .
 git -C /repo status --short | head -3
